@@ -118,11 +118,13 @@ structure Worker where
   woken : Bool                -- its wakeup channel was closed and it has not run yet
   inSync : Bool               -- inside a Synchronize call (cleanup entry removed)
   drainWait : Option Nat      -- blocked on undrainWakeup with this generation snapshot
+  timer : Option Nat          -- deadline of the timeout timer of a blocked Synchronize
 deriving Repr, Inhabited
 
 structure Task where
   id : Nat
-  digest : Nat
+  digest : Nat                -- hash/size as the worker reports it
+  dkey : Nat                  -- full digest incl. instance name: key of the deduplication map
   doNotCache : Bool
   scq : ScqId
   ops : List Nat              -- operation names, one per invocation
@@ -149,6 +151,7 @@ structure Stream where
   client : Nat
   op : Nat
   snap : Nat                  -- generation of the task when the last message was built
+  timer : Nat                 -- deadline of the update timer armed after the last message
 deriving Repr, Inhabited
 
 /-- A `TerminateWorkers` call waiting for the captured channels of executing tasks. -/
@@ -158,6 +161,8 @@ structure TermCall where
 deriving Repr, Inhabited
 
 structure Cfg where
+  updateInterval : Nat
+  idleInterval : Nat
   noWaiterTimeout : Nat
   pqTimeout : Nat
   busyInterval : Nat
@@ -308,7 +313,8 @@ def schedule (h : Hints) (s : State) (tid : Nat) : M State := do
     let some w := s.worker? w.scq w.id | throw "schedule: worker vanished"
     assignTo s w t
   else
-    if (hintedWorker h s t).isSome then throw "mismatch: task handed to a worker although none was parked"
+    -- nobody is parked: the operations are enqueued (the same segment may still hand the
+    -- task to the synchronizing worker itself through `assignNextQueuedTask`)
     return s.setTask { t with queued := true }
 
 /-! ## completing a task (`task.complete`) -/
@@ -343,7 +349,7 @@ def complete (h : Hints) (s : State) (tid : Nat) (r : Resp) (byWorker : Bool) : 
     let s := emit s (.learnerSucceeded learner (if h.bg.isSome then some s.nextLearner else none))
     let t := { t with learner := none }
     -- final completion of t
-    let s := if alookup t.digest s.dedup = some t.id then { s with dedup := aerase t.digest s.dedup } else s
+    let s := if alookup t.dkey s.dedup = some t.id then { s with dedup := aerase t.dkey s.dedup } else s
     let t := bumpGen { t with response := some r }
     let s := s.setTask t
     let s := finishOps s t.ops
@@ -355,12 +361,12 @@ def complete (h : Hints) (s : State) (tid : Nat) (r : Resp) (byWorker : Bool) : 
       let some pq := s.pq? t.scq.pq | throw "complete: no platform queue"
       if pq.bgMax = 0 then return emit s (.learnerAbandoned bl)
       let sizes := s.sizes t.scq.pq
-      let some bsc := sizes[bgIdx]? | throw "mismatch: background size class index out of range"
+      let some bsc := sizes[min bgIdx (sizes.length - 1)]? | throw "platform queue without size classes"
       let bq : ScqId := ⟨t.scq.pq, bsc⟩
       if countQueuedBackground s bq ≥ pq.bgMax then return emit s (.learnerAbandoned bl)
       -- create the background task with one operation that may exist without waiters
       let opn := s.nextOp
-      let bt : Task := { id := s.nextTask, digest := t.digest, doNotCache := true, scq := bq, ops := [opn], worker := none, retry := 0, response := none, gen := 0, learner := some bl, background := true, queued := false }
+      let bt : Task := { id := s.nextTask, digest := t.digest, dkey := t.dkey, doNotCache := true, scq := bq, ops := [opn], worker := none, retry := 0, response := none, gen := 0, learner := some bl, background := true, queued := false }
       let bo : Op := { name := opn, task := bt.id, inv := [0], prio := pq.bgPrio, waiters := 0, mayExistWithoutWaiters := true }
       let s := { s with nextTask := s.nextTask + 1, nextOp := opn + 1 }
       let s := (s.setTask bt).setOp bo
@@ -390,7 +396,7 @@ where
           then maybeStartCleanup (s.setOp { op with mayExistWithoutWaiters := false }) o else s
       | none => s) s
   finalize (s : State) (t : Task) (r : Resp) : M State := do
-    let s := if alookup t.digest s.dedup = some t.id then { s with dedup := aerase t.digest s.dedup } else s
+    let s := if alookup t.dkey s.dedup = some t.id then { s with dedup := aerase t.dkey s.dedup } else s
     let t := bumpGen { t with response := some r }
     let s := s.setTask t
     return finishOps s t.ops
@@ -450,9 +456,16 @@ def popDue (now : Nat) (cs : List CleanupEntry) : Option (CleanupEntry × List C
   | some e => some (e, cs.filter (fun x => x ≠ e))
 
 /-- two due entries with the same deadline: their order depends on heap layout. -/
+def CleanupKind.isOp : CleanupKind → Bool
+  | .op _ => true
+  | _ => false
+
+/-- Callbacks of the same kind commute; an operation removal and a worker or queue
+removal that are due at the same instant do not (whichever runs first decides the
+status the task completes with). -/
 def dueTie (now : Nat) (cs : List CleanupEntry) : Bool :=
   let due := cs.filter (fun e => e.deadline ≤ now)
-  due.any (fun e => (due.filter (fun x => x.deadline = e.deadline)).length > 1)
+  due.any (fun e => due.any (fun x => x.deadline = e.deadline ∧ x.kind.isOp ≠ e.kind.isOp))
 
 /-- `cleanupQueue.run(now)`; `fuel` bounds the number of callbacks. -/
 def runCleanup (h : Hints) : Nat → State → M State
@@ -491,7 +504,7 @@ def streamSend (s : State) (c : Nat) (o : Nat) : M State := do
     return maybeStartCleanup s o
   | none =>
     let s := emit s (.msg c o t.stage false 0 0)
-    return { s with streams := ⟨c, o, t.gen⟩ :: s.streams }
+    return { s with streams := ⟨c, o, t.gen, s.now + s.cfg.updateInterval⟩ :: s.streams }
 
 /-- entry of `waitExecution`: cancel a pending cleanup, count the waiter, send. -/
 def streamAttach (s : State) (c : Nat) (o : Nat) : M State := do
@@ -526,10 +539,10 @@ def route (s : State) (comps : List Nat) (platform : Nat) : Option PQ :=
 /-! ## RPC segments -/
 
 /-- `Execute`, from `bq.enter` to the first park (or return). -/
-def execArrive (h : Hints) (s : State) (now c digest : Nat) (dnc : Bool) (comps : List Nat)
+def execArrive (h : Hints) (s : State) (now c digest dkey : Nat) (dnc : Bool) (comps : List Nat)
     (platform : Nat) (inv : List Nat) (prio : Int) : M State := do
   let s ← enter h s now
-  match alookup digest s.dedup with
+  match alookup dkey s.dedup with
   | some tid =>
     let some t := s.task? tid | throw "dedup map points to a missing task"
     let s := emit s .selAbandoned
@@ -550,14 +563,15 @@ def execArrive (h : Hints) (s : State) (now c digest : Nat) (dnc : Bool) (comps 
       return emit s (.ret c (if s.now < s.cfg.hardFailTime then cUnavailable else cFailedPrecondition))
     | some pq =>
       let sizes := s.sizes pq.id
-      let some sc := sizes[h.sel]? | throw "mismatch: selected size class index out of range"
+      -- the scripted selector clamps its answer to the size classes it is shown
+      let some sc := sizes[min h.sel (sizes.length - 1)]? | throw "platform queue without size classes"
       let l := s.nextLearner
       let s := emit { s with nextLearner := l + 1 } (.selSelect l)
       let tid := s.nextTask
       let opn := s.nextOp
-      let t : Task := { id := tid, digest := digest, doNotCache := dnc, scq := ⟨pq.id, sc⟩, ops := [opn], worker := none, retry := 0, response := none, gen := 0, learner := some l, background := false, queued := false }
+      let t : Task := { id := tid, digest := digest, dkey := dkey, doNotCache := dnc, scq := ⟨pq.id, sc⟩, ops := [opn], worker := none, retry := 0, response := none, gen := 0, learner := some l, background := false, queued := false }
       let s := { s with nextTask := tid + 1, nextOp := opn + 1 }
-      let s := if dnc then s else { s with dedup := aset digest tid s.dedup }
+      let s := if dnc then s else { s with dedup := aset dkey tid s.dedup }
       let s := (s.setTask t).setOp { name := opn, task := tid, inv := inv, prio := prio, waiters := 0, mayExistWithoutWaiters := false }
       let s ← schedule h s tid
       streamAttach s c opn
@@ -611,7 +625,7 @@ def execResponse (s : State) (w : Worker) : M State := do
 def syncReturn (s : State) (q : ScqId) (w : WId) : State :=
   match s.worker? q w with
   | some wk =>
-    (s.setWorker { wk with inSync := false, parked := false, woken := false, drainWait := none }).addCleanup
+    (s.setWorker { wk with inSync := false, parked := false, woken := false, drainWait := none, timer := none }).addCleanup
       (s.now + s.cfg.workerTimeout) (.worker q w)
   | none => s
 
@@ -631,10 +645,10 @@ def getNextTask (h : Hints) (s : State) (q : ScqId) (w : WId) (preferIdle block 
     -- park as idle synchronizing worker
     let some wk := s.worker? q w | throw "getNextTask: worker vanished"
     if wk.parked then throw "Worker is already queued"
-    return s.setWorker { wk with parked := true, woken := false }
+    return s.setWorker { wk with parked := true, woken := false, timer := some (wk.timer.getD (s.now + s.cfg.idleInterval)) }
   else
     if !block then return syncReturn (emit s (.syncIdle q w s.now)) q w
-    return s.setWorker { wk with drainWait := some sq.undrainGen }
+    return s.setWorker { wk with drainWait := some sq.undrainGen, timer := some (wk.timer.getD (s.now + s.cfg.idleInterval)) }
 
 /-- `getCurrentOrNextTask`. -/
 def getCurrentOrNext (h : Hints) (s : State) (q : ScqId) (w : WId) (preferIdle block : Bool) : M State := do
@@ -687,7 +701,7 @@ def syncWorker (s : State) (q : ScqId) (w : WId) : State ⊕ State :=
     if wk.inSync then .inl (emit s (.syncErr q w cResourceExhausted))
     else .inr ((s.removeCleanup (.worker q w)).setWorker { wk with inSync := true })
   | none =>
-    .inr { s with workers := s.workers ++ [{ scq := q, id := w, task := none, terminating := false, parked := false, woken := false, inSync := true, drainWait := none }] }
+    .inr { s with workers := s.workers ++ [{ scq := q, id := w, task := none, terminating := false, parked := false, woken := false, inSync := true, drainWait := none, timer := none }] }
 
 /-- `Synchronize`, from `bq.enter` to the first park (or return). -/
 def syncArrive (h : Hints) (s : State) (now : Nat) (q : ScqId) (comps : List Nat) (platform : Nat)
